@@ -377,7 +377,45 @@ def check_nonempty(F, run):
                         run_case(b["name"], [PI.poly(list(cs)), sp.Integer(k)], "len=%d,%s,arg=%d" % (nlen, kind, k), b)
                 else:
                     run_case(b["name"], [PI.poly(list(cs))], "len=%d,%s" % (nlen, kind), b)
-    # shortening sites elsewhere (division's remainder trimming, …): the loop or branch they sit in must keep one coefficient
+    # methods taking another polynomial by reference (division): executed on small generic / exact-multiple / zero shapes; every polynomial in the
+    # result must keep one coefficient
+    def polys_in(v):
+        if isinstance(v, dict) and "coefficients" in v:
+            yield v
+        elif isinstance(v, sym.Variant):
+            for a in v.args:
+                yield from polys_in(a)
+        elif isinstance(v, (tuple, list)):
+            for a in v:
+                yield from polys_in(a)
+    for path, (b, sites) in sorted(shrinkers.items()):
+        if path in covered or (b.get("impl_self") or "") != "polynomial::Polynomial<N>" or b.get("impl_trait"):
+            continue
+        tys = [(q.get("ty") or "") for q in b["params"]]
+        if len(tys) != 2 or b["params"][0].get("name") != "self" or "Polynomial<N>" not in tys[1]:
+            continue
+        run.analysed(b)
+        covered.add(path)
+        x0, x1 = PI.symbols("d", 2)
+        cases = []
+        for nl in (1, 2, 3):
+            for kind, dv in (("const", [x0]), ("linear", [x0, x1])):
+                cases.append(("len=%d/%s" % (nl, kind), PI.symbols("a", nl), dv))
+        cases.append(("exact-multiple", [x0 * 3, x1 * 3 + x0 * 5, x1 * 5], [x0, x1]))
+        cases.append(("zero-dividend", [sp.Integer(0)], [x0, x1]))
+        for inst, num_, den_ in cases:
+            try:
+                v, _ = PI.call(F, b, [PI.poly(list(num_)), PI.poly(list(den_))], seconds=SECONDS.get("quick", 25))
+            except vecint.IndexPanic as e:
+                run.fail("R11.6", b["path"], "panic:" + inst, F.loc(b), "abstract execution panics: %s" % e.why)
+                continue
+            except (sym.Unsupported, vecint.Budget) as u:
+                run.broken("R11.6", b["path"], inst, F.loc(b, u.node if isinstance(getattr(u, "node", None), dict) else None), str(u))
+                continue
+            ps_ = list(polys_in(v))
+            run.check(all(len(PI.coeffs(q)) >= 1 for q in ps_), "R11.6", b["path"], "pop-guarded", F.loc(b), "%s on %s returns a polynomial with an empty coefficient vector" % (b["name"], inst),
+                      sample="%s on %s: %d polynomial(s) returned, none empty" % (b["name"], inst, len(ps_)))
+    # shortening sites elsewhere: the loop or branch they sit in must keep one coefficient
     for path, (b, sites) in sorted(shrinkers.items()):
         if path in covered:
             continue
